@@ -34,6 +34,9 @@ type RT interface {
 	Logf(format string, a ...any)
 	// Outcome records the observable outcome of the execution.
 	Outcome(s string)
+	// Quiesce waits until the driver and engine goroutines have nothing left
+	// to do (controlled runtime only; a no-op when free running).
+	Quiesce()
 	// OnDeadlock registers the classifier called (with every thread parked)
 	// when the controlled scheduler finds a deadlock.
 	OnDeadlock(f func(blocked []Blocked) string)
@@ -46,6 +49,9 @@ type Blocked struct {
 	Daemon bool
 	What   string
 	Stack  []string
+	// Finished threads are listed too (Finished=true).
+	Finished    bool
+	LastPreempt string
 }
 
 // log2Page is the page size of the scenarios: 16 MB pages keep the driver's
@@ -229,18 +235,43 @@ func (w *World) Times() string {
 	return b.String()
 }
 
+// Durations renders end-start of every completed command (canonical ids).
+func (w *World) Durations() string {
+	log := w.Log()
+	names := map[string]string{}
+	start := map[string]sim.VTimeInSec{}
+	var b strings.Builder
+	for _, e := range log {
+		n, ok := names[e.ID]
+		if !ok {
+			n = fmt.Sprintf("c%d", len(names))
+			names[e.ID] = n
+		}
+		if e.Start {
+			start[e.ID] = e.Time
+		} else {
+			fmt.Fprintf(&b, "%s=%d ", n, int64(float64(e.Time-start[e.ID])*1e9+0.5))
+		}
+	}
+	return b.String()
+}
+
 // classifyDeadlock refines the signature of a deadlock. It runs while every
 // thread is parked.
 func (w *World) classifyDeadlock(blocked []Blocked) string {
 	var apps []string
 	engineAlive := false
+	enginePre := "-"
 	for _, b := range blocked {
 		if b.Name == "d.runEngine" {
-			engineAlive = true
+			if !b.Finished {
+				engineAlive = true
+			}
+			enginePre = b.LastPreempt // of the most recent engine goroutine
 		}
 	}
 	for _, b := range blocked {
-		if b.Daemon {
+		if b.Daemon || b.Finished {
 			continue
 		}
 		where := b.What
@@ -251,20 +282,39 @@ func (w *World) classifyDeadlock(blocked []Blocked) string {
 			}
 		}
 		if inDrain && b.What == "chan recv" {
-			q := w.draining[b.Name]
-			switch {
-			case q == nil:
-				where = "DrainCommandQueue/wait"
-			case verifNumCommands(q) == 0:
-				where = "DrainCommandQueue/notify-before-wait"
-			case !engineAlive && verifEngineRunning(w.Driver) && verifPending(w.Engine) > 0:
-				where = "DrainCommandQueue/engine-exited-with-pending-tick"
-			case !engineAlive && verifPending(w.Engine) > 0:
-				where = "DrainCommandQueue/engine-not-started"
-			case !engineAlive:
-				where = "DrainCommandQueue/command-left-in-queue-engine-idle"
-			default:
-				where = "DrainCommandQueue/command-left-in-queue-engine-blocked"
+			// which queue(s) are being waited on: the one recorded by World.Drain,
+			// else every queue that has a subscribed listener
+			var qs []*driver.CommandQueue
+			if q := w.draining[b.Name]; q != nil {
+				qs = append(qs, q)
+			} else {
+				for _, q := range verifQueues(w.Driver) {
+					if verifNumListeners(q) > 0 {
+						qs = append(qs, q)
+					}
+				}
+			}
+			where = "DrainCommandQueue/wait"
+			for _, q := range qs {
+				var k string
+				switch {
+				case verifNumCommands(q) == 0:
+					// the queue is empty, the last notification is gone, nobody will notify again
+					// (the window is named by where the waiting thread was last preempted)
+					k = "DrainCommandQueue/notify-before-wait/waiter-preempted-in=" + b.LastPreempt
+				case !engineAlive && verifPending(w.Engine) > 0:
+					// commands and a scheduled tick, but no engine goroutine and nobody left to start one
+					k = "DrainCommandQueue/engine-exit-races-with-enqueue/engine-preempted-in=" + enginePre
+				case !engineAlive:
+					k = "DrainCommandQueue/command-left-in-queue-engine-idle"
+				default:
+					k = "DrainCommandQueue/command-left-in-queue-engine-blocked"
+				}
+				apps = append(apps, k)
+				where = ""
+			}
+			if where == "" {
+				continue
 			}
 		} else if len(b.Stack) > 0 {
 			top := b.Stack[0]
